@@ -34,6 +34,28 @@ CHAINS = {"none": None, "pass": b"noop;exclude_uid:7;only_uid:0", "droplast": b"
           "mixed": b"only_uid:0,4,70000;exclude_uid:4,9;exclude_spawns_of:nosuch,zz;only_root"}
 
 
+def attributable(report):
+    """A ThreadSanitizer report counts against the library only if one of the two racing accesses is MADE by the library: by its own
+    (instrumented) code, or by an intercepted libc function it calls directly.  Accesses made inside the C library on the C library's
+    own state (e.g. the time zone data, guarded by a libc-internal lock the detector cannot see) are not the library's."""
+    if "ThreadSanitizer: data race" not in report:
+        return False
+    blocks = re.split(r"\n\s*\n", report)
+    n = 0
+    for blk in blocks:
+        if not re.search(r"^\s*(Previous )?(atomic )?(read|write) of size", blk, re.I | re.M):
+            continue
+        n += 1
+        frames = re.findall(r"^\s*#(\d+) (.*)$", blk, re.M)
+        f = {int(i): t for i, t in frames}
+        own = lambda t: t is not None and ("/src-ts-tsan/src/" in t or "libsnoopy" in t)
+        if own(f.get(0)) or ("libtsan" in (f.get(0) or "") and own(f.get(1))):
+            return True
+        if n >= 2:
+            break
+    return False
+
+
 def scenario(out, shape, sched, fmt=FMT):
     nt, nc = shape[0], shape[1]
     okind = shape[2] if len(shape) > 2 else "file"
@@ -86,7 +108,7 @@ def run_sched(d, shape, sched, tsan=False):
         raise Failure("deadlock: %s (%s)" % (Z[0].f[3].decode(), what), {"trace": Z[0].f[0][-120:]}, key="deadlock")
     if tsan:
         races = [r for r in reports if "ThreadSanitizer: data race" in r]
-        mine = [r for r in races if "/src-ts-tsan/src/" in r or "libsnoopy" in r]
+        mine = [r for r in races if attributable(r)]
         if mine:
             m = re.search(r"src-ts-tsan/(src/[a-zA-Z0-9_/.-]+\.c:\d+)", mine[0])
             raise Failure("data race reported by ThreadSanitizer at %s (%s)" % (m.group(1) if m else "?", what),
@@ -216,7 +238,7 @@ def stress(ctx, builds, rounds, nthreads):
             ctx.evaluations += 1
             ctx.classes["stress-round"] = ctx.classes.get("stress-round", 0) + 1
             what = "stress round %d, %d free-running threads" % (r, nthreads)
-            mine = [x for x in reports if "ThreadSanitizer: data race" in x and ("/src-ts-tsan/src/" in x or "libsnoopy" in x)]
+            mine = [x for x in reports if attributable(x)]
             if mine:
                 m = re.search(r"src-ts-tsan/(src/[a-zA-Z0-9_/.-]+\.c:\d+)", mine[0])
                 return {"what": "data race reported by ThreadSanitizer at %s under stress (%s)" % (m.group(1) if m else "?", what), "observed": {"report": mine[0][:1800]}}
@@ -245,7 +267,7 @@ def main():
     ctx.assumptions = ["interleavings are enumerated at lock granularity; unsynchronised accesses between two scheduling points are judged by "
                        "ThreadSanitizer's happens-before analysis under the enumerated schedules", "the scheduler's hand-over uses raw futex "
                        "syscalls that ThreadSanitizer does not model, so it adds no synchronisation of its own",
-                       "ThreadSanitizer reports are attributed to snoopy only if a frame lies in its sources"]
+                       "a ThreadSanitizer report is attributed to snoopy only if one of the two racing accesses is made by its own code or by a libc function it calls directly (accesses deep inside libc on libc's own state are not)"]
     if ctx.replay:
         case, _ = load_replay(ctx.replay)
         ctx.count("replay-1", ["replay"], sample=case)
